@@ -1,11 +1,8 @@
 #!/bin/bash
-# runs every seeded change against its own check and up to two related ones; output on stdout
-declare -A EXTRA
-EXTRA[C01]="C15 C02"; EXTRA[C02]="C11 C01"; EXTRA[C03]="C04"; EXTRA[C04]="C03 C17"; EXTRA[C05]="C17 C08"
-EXTRA[C06]="C12 C13"; EXTRA[C07]="C11"; EXTRA[C08]="C18"; EXTRA[C09]="C10 C16"; EXTRA[C10]="C09 C11"
-EXTRA[C11]="C10 C07"; EXTRA[C12]="C06 C13"; EXTRA[C13]="C12 C06"; EXTRA[C14]="C04 C17"; EXTRA[C15]="C06 C01"
-EXTRA[C16]="C09"; EXTRA[C17]="C04 C14"; EXTRA[C18]=""; EXTRA[C19]=""
+# every seeded change against its own property's check, plus the check expected to catch it when that is another one
+declare -A ALT
+ALT[C01-m4]="C14"; ALT[C11-m3]="C10"; ALT[C15-m2]="C06 C13"; ALT[C15-m4]="C13"; ALT[C01-m2]="C14"; ALT[C06-m1]="C12"; ALT[C13-m2]="C06"; ALT[C02-m4]="C08"
 for d in /verif/seeded/*/; do
   id=$(basename $d); p=${id%%-*}
-  /verif/tools/matrix.sh $id $d/patch.diff $p ${EXTRA[$p]}
+  /verif/tools/matrix.sh $id $d/patch.diff $p ${ALT[$id]}
 done
